@@ -20,21 +20,28 @@ def lit(s):
     return '[' + '; '.join(str(ord(c)) for c in s) + ']'
 
 
-# (module, class, method, kind): kind 'bool' or 'state'
-TARGETS = [('block_token', 'Quote', 'start', 'bool'), ('block_token', 'Paragraph', 'start', 'bool'),
-           ('block_token', 'BlockCode', 'start', 'bool'), ('block_token', 'Table', 'start', 'bool'),
-           ('block_token', 'Footnote', 'start', 'bool'), ('block_token', 'ThematicBreak', 'start', 'bool'),
-           ('block_token', 'List', 'start', 'bool'), ('markdown_renderer', 'BlankLine', 'start', 'bool'),
-           ('block_token', 'Heading', 'start', 'state'), ('block_token', 'CodeFence', 'start', 'state')]
+# (module, class, method, kind, parameters after cls/self): kind 'bool', 'state' (option of the class attributes written) or
+# 'option' (None stays None, any other returned value v becomes Some v)
+LINE = [('line', 'line', 'str')]
+TARGETS = [('block_token', 'Quote', 'start', 'bool', LINE), ('block_token', 'Paragraph', 'start', 'bool', LINE),
+           ('block_token', 'BlockCode', 'start', 'bool', LINE), ('block_token', 'Table', 'start', 'bool', LINE),
+           ('block_token', 'Footnote', 'start', 'bool', LINE), ('block_token', 'ThematicBreak', 'start', 'bool', LINE),
+           ('block_token', 'List', 'start', 'bool', LINE), ('markdown_renderer', 'BlankLine', 'start', 'bool', LINE),
+           ('block_token', 'Heading', 'start', 'state', LINE), ('block_token', 'CodeFence', 'start', 'state', LINE),
+           ('block_token', 'ListItem', 'parse_marker', 'option', LINE),
+           ('block_token', 'ListItem', 'parse_continuation', 'option', LINE + [('prepend', 'prepend', 'Z')]),
+           # check_interrupts_paragraph(lines) looks at lines.peek() only: a function of that line
+           ('block_token', 'List', 'check_interrupts_paragraph', 'bool', [('lines', 'line', 'peek')])]
 
 
 class Tr:
     """sorts: 'Z', 'bool', 'str', 'match' (what pattern.match returns: option mst), 'tuple:<n>'"""
 
-    def __init__(self, module, cls, kind):
+    def __init__(self, module, cls, meth, kind, params):
         self.module, self.cls, self.kind = module, cls, kind
-        self.where = '%s.%s.start' % (module, cls)
-        self.env = {'line': ('line', 'str')}
+        self.where = '%s.%s.%s' % (module, cls, meth)
+        self.env = {py: (coq, srt) for (py, coq, srt) in params}
+        self.done = {}           # methods translated so far: (class, method) -> (coq name, parameter sorts, result sort)
         self.state = []          # class attributes assigned, in order of first assignment
 
     def fail(self, e, why='unknown expression'):
@@ -87,18 +94,28 @@ class Tr:
             return '(' + op.join(self.truth(v) for v in e.values) + ')', 'bool'
         if isinstance(e, ast.UnaryOp) and isinstance(e.op, ast.Not):
             return '(negb %s)' % self.truth(e.operand), 'bool'
+        if isinstance(e, ast.BinOp) and isinstance(e.op, ast.Add):
+            lt, ls = self.expr(e.left)
+            if ls == 'str':
+                return '(%s ++ %s)' % (lt, self.sort(e.right, 'str')), 'str'
         if isinstance(e, ast.BinOp) and isinstance(e.op, (ast.Add, ast.Sub)):
             return '(%s %s %s)' % (self.sort(e.left, 'Z'), '+' if isinstance(e.op, ast.Add) else '-', self.sort(e.right, 'Z')), 'Z'
         if isinstance(e, ast.Compare) and len(e.ops) == 1:
             op, l, r = e.ops[0], e.left, e.comparators[0]
             if isinstance(op, (ast.Is, ast.IsNot)) and isinstance(r, ast.Constant) and r.value is None:
-                t = self.sort(l, 'match')
+                t, srt = self.expr(l)
+                if srt != 'match' and not srt.startswith('option:'):
+                    self.fail(e, 'None test on sort ' + srt)
                 yes, no = ('true', 'false') if isinstance(op, ast.Is) else ('false', 'true')
                 return '(match %s with None => %s | Some _ => %s end)' % (t, yes, no), 'bool'
             if isinstance(op, ast.In):
                 # 'c' in text
                 if isinstance(l, ast.Constant) and isinstance(l.value, str) and len(l.value) == 1:
                     return '(mem %d %s)' % (ord(l.value), self.sort(r, 'str')), 'bool'
+                lt, ls = self.expr(l)
+                rt, rs = self.expr(r)
+                if ls == 'str' and rs == 'strlist':
+                    return '(str_in %s %s)' % (lt, rt), 'bool'
                 self.fail(e, 'unknown membership test')
             # set(text) == {'c'}: text is not empty and holds nothing but c
             if isinstance(op, ast.Eq) and isinstance(l, ast.Call) and isinstance(l.func, ast.Name) and l.func.id == 'set' and len(l.args) == 1 \
@@ -122,6 +139,13 @@ class Tr:
             self.fail(e, 'unknown comparison')
         if isinstance(e, ast.Subscript) and not isinstance(e.slice, ast.Slice):
             return '(char_at %s %s)' % (self.sort(e.value, 'str'), self.sort(e.slice, 'Z')), 'Z'
+        if isinstance(e, ast.Subscript) and e.slice.upper is None and e.slice.step is None and e.slice.lower is not None:
+            return '(drop %s %s)' % (self.sort(e.slice.lower, 'Z'), self.sort(e.value, 'str')), 'str'
+        if isinstance(e, ast.List) and all(isinstance(x, ast.Constant) and isinstance(x.value, str) for x in e.elts):
+            return '[' + '; '.join(lit(x.value) for x in e.elts) + ']', 'strlist'
+        if isinstance(e, ast.BinOp) and isinstance(e.op, ast.Mult) and isinstance(e.left, ast.Constant) and isinstance(e.left.value, str) \
+                and len(e.left.value) == 1:
+            return '(repeat %d (Z.to_nat %s))' % (ord(e.left.value), self.sort(e.right, 'Z')), 'str'
         if isinstance(e, ast.Tuple):
             parts = [self.expr(x) for x in e.elts]
             return '(' + ', '.join(p[0] for p in parts) + ')', 'tuple:' + ','.join(p[1] for p in parts)
@@ -133,12 +157,33 @@ class Tr:
                 # cls.pattern.match(line)
                 if f.attr == 'match' and self.cls_attr(f.value) and len(e.args) == 1:
                     nm = '%s_%s_%s' % (self.module, self.cls, f.value.attr)
-                    return '(rmatch re_%s fl_%s %s)' % (nm, nm, self.sort(e.args[0], 'str')), 'match'
-                if f.attr == 'group' and len(e.args) == 1 and isinstance(e.args[0], ast.Constant) and isinstance(e.args[0].value, int):
+                    subj = self.sort(e.args[0], 'str')
+                    t = '(rmatch re_%s fl_%s %s)' % (nm, nm, subj)
+                    self.subject[t] = subj
+                    return t, 'match'
+                if f.attr in ('group', 'end') and len(e.args) == 1 and isinstance(e.args[0], ast.Constant) and isinstance(e.args[0].value, int):
                     m = self.sort(f.value, 'match')
                     if m not in self.some:
                         self.fail(e, 'group of a match not known to have succeeded')
-                    return '(gtxt %s %d)' % (self.some[m], e.args[0].value), 'str'
+                    n = e.args[0].value
+                    if f.attr == 'group':
+                        if n == 0:      # the whole match of pattern.match(subject): subject[0:end]
+                            return '(take (pos %s) %s)' % (self.some[m], self.subject[m]), 'str'
+                        return '(gtxt %s %d)' % (self.some[m], n), 'str'
+                    if n == 0:
+                        return '(pos %s)' % self.some[m], 'Z'
+                    return '(match group_span %s %d with Some (_, b) => b | None => 0 end)' % (self.some[m], n), 'Z'
+                if f.attr == 'expandtabs' and len(e.args) == 1 and isinstance(e.args[0], ast.Constant) and e.args[0].value == 4:
+                    return '(expandtabs4 %s)' % self.sort(f.value, 'str'), 'str'
+                if f.attr == 'isdigit' and not e.args:      # on a character a \\d of the pattern matched
+                    return '(is_decimal_c %s)' % self.sort(f.value, 'Z'), 'bool'
+                if f.attr == 'peek' and not e.args and isinstance(f.value, ast.Name) and self.env.get(f.value.id, ('', ''))[1] == 'peek':
+                    return self.env[f.value.id][0], 'str'
+                if isinstance(f.value, ast.Name) and (f.value.id, f.attr) in self.done:
+                    nm, psorts, rs = self.done[(f.value.id, f.attr)]
+                    if len(psorts) != len(e.args):
+                        self.fail(e, 'wrong number of arguments')
+                    return '(%s %s)' % (nm, ' '.join(self.sort(a, ps) for a, ps in zip(e.args, psorts))), rs
                 obj = f.value
                 if f.attr == 'lstrip' and len(e.args) == 0:
                     return '(lstrip %s)' % self.sort(obj, 'str'), 'str'
@@ -155,10 +200,17 @@ class Tr:
         self.fail(e)
 
     some = {}      # match expressions known to be Some m on the current path -> the bound name
+    subject = {}   # match expression -> the string it was made on
 
     def ret(self, value):
         if self.kind == 'bool':
             return self.truth(value)
+        if self.kind == 'option':
+            if isinstance(value, ast.Constant) and value.value is None:
+                return 'None'
+            if isinstance(value, ast.IfExp):
+                return '(if %s then %s else %s)' % (self.truth(value.test), self.ret(value.body), self.ret(value.orelse))
+            return 'Some %s' % self.expr(value)[0]
         if isinstance(value, ast.Constant) and value.value is False:
             return 'None'
         if isinstance(value, ast.Constant) and value.value is True:
@@ -197,7 +249,47 @@ class Tr:
                     some_branch = self.block(rest, k)
                     self.env, self.some, self.state = saved_env, saved_some, saved_state
                     return '(match %s with None => %s | Some m => %s end)' % (t, none_branch, some_branch)
+            # `if x is not None: body` on an option-valued local: body runs with the value in hand, otherwise the rest
+            if isinstance(test, ast.Compare) and len(test.ops) == 1 and isinstance(test.ops[0], ast.IsNot) \
+                    and isinstance(test.comparators[0], ast.Constant) and test.comparators[0].value is None \
+                    and isinstance(test.left, ast.Name) and not st.orelse:
+                t, srt = self.expr(test.left)
+                if srt.startswith('option:'):
+                    saved_env, saved_some, saved_state = dict(self.env), dict(self.some), list(self.state)
+                    self.env[test.left.id] = (test.left.id + '_v', srt[len('option:'):])
+                    some_branch = self.block(st.body, (rest, k))
+                    self.env, self.some, self.state = dict(saved_env), dict(saved_some), list(saved_state)
+                    none_branch = self.block(rest, k)
+                    self.env, self.some, self.state = saved_env, saved_some, saved_state
+                    return '(match %s with Some %s_v => %s | None => %s end)' % (t, test.left.id, some_branch, none_branch)
             cond = self.truth(test)
+            # an `if` without `else` whose body only re-assigns locals already bound: the locals after it
+            def target_local(x):
+                if isinstance(x, ast.AugAssign) and isinstance(x.target, ast.Name) and isinstance(x.op, (ast.Add, ast.Sub)):
+                    return x.target.id
+                if isinstance(x, ast.Assign) and len(x.targets) == 1 and isinstance(x.targets[0], ast.Name):
+                    return x.targets[0].id
+                return None
+            if not st.orelse and st.body and all(target_local(x) in self.env and self.env[target_local(x)][1] in ('Z', 'str') for x in st.body):
+                names = []
+                inner = ''
+                saved_env = dict(self.env)
+                for x in st.body:
+                    nm = target_local(x)
+                    if isinstance(x, ast.AugAssign):
+                        t = '(%s %s %s)' % (self.env[nm][0], '+' if isinstance(x.op, ast.Add) else '-', self.sort(x.value, 'Z'))
+                        srt = 'Z'
+                    else:
+                        t, srt = self.expr(x.value)
+                    if srt != self.env[nm][1]:
+                        self.fail(x, 'local changes sort')
+                    inner += '(let %s := %s in ' % (nm, t)
+                    if nm not in names:
+                        names.append(nm)
+                self.env = saved_env
+                tup = '(' + ', '.join(names) + ')' if len(names) > 1 else names[0]
+                pat = "'" + tup if len(names) > 1 else names[0]
+                return '(let %s := (if %s then %s%s%s else %s) in %s)' % (pat, cond, inner, tup, ')' * len(st.body), tup, self.block(rest, k))
             if not st.orelse and all(isinstance(x, ast.Assign) and len(x.targets) == 1 and self.cls_attr(x.targets[0]) for x in st.body):
                 # conditional re-assignment of class attributes already written
                 out = ''
@@ -222,8 +314,9 @@ class Tr:
                 if tgt.id in self.env:
                     raise Unknown('%s: local %s assigned twice' % (self.where, tgt.id))
                 t, s = self.expr(st.value)
-                self.env[tgt.id] = (tgt.id, s) if s != 'match' else (t, s)       # a match is kept as its expression
-                if s == 'match':
+                keep = s == 'match' or s.startswith('option:')                     # kept as its expression until it is tested
+                self.env[tgt.id] = (t, s) if keep else (tgt.id, s)
+                if keep:
                     return self.block(rest, k)
                 return '(let %s := %s in %s)' % (tgt.id, t, self.block(rest, k))
             if self.cls_attr(tgt):
@@ -241,6 +334,21 @@ class Tr:
                     self.env[nm] = ('(' + ', '.join(names) + ')', s)
                     return "(let '(%s) := %s in %s)" % (', '.join(names), t, self.block(rest, k))
                 return '(let %s := %s in %s)' % (nm, t, self.block(rest, k))
+            # a, b, c, d = some_tuple
+            if isinstance(tgt, ast.Tuple) and all(isinstance(x, ast.Name) for x in tgt.elts) and isinstance(st.value, ast.Name):
+                t, srt = self.expr(st.value)
+                if not srt.startswith('tuple:') or len(srt[len('tuple:'):].split(',')) != len(tgt.elts):
+                    self.fail(st.value, 'unpacking something that is not a tuple of that length')
+                pats = []
+                for x, xs in zip(tgt.elts, srt[len('tuple:'):].split(',')):
+                    if x.id == '_':
+                        pats.append('_')
+                        continue
+                    if x.id in self.env:
+                        raise Unknown('%s: local %s assigned twice' % (self.where, x.id))
+                    self.env[x.id] = (x.id, xs)
+                    pats.append(x.id)
+                return "(let '(%s) := %s in %s)" % (', '.join(pats), t, self.block(rest, k))
             # a, b, c, d = match_obj.groups()
             if isinstance(tgt, ast.Tuple) and all(isinstance(x, ast.Name) for x in tgt.elts) and isinstance(st.value, ast.Call) \
                     and isinstance(st.value.func, ast.Attribute) and st.value.func.attr == 'groups' and not st.value.args:
@@ -263,7 +371,8 @@ def generate():
            'From Coq Require Import ZArith List Bool.',
            'From Mistletoe Require Import Base.Sx Base.PyStr Base.PyText Re.ReMatch Gen.GenRegex Model.Block.',
            'Import ListNotations.', 'Local Open Scope Z_scope.', '']
-    for module, cls, meth, kind in TARGETS:
+    done = {}
+    for module, cls, meth, kind, params in TARGETS:
         if module not in trees:
             trees[module] = ast.parse(open(os.path.join(REPO, 'mistletoe', module + '.py'), encoding='utf8').read())
         cnode = [n for n in trees[module].body if isinstance(n, ast.ClassDef) and n.name == cls]
@@ -277,14 +386,19 @@ def generate():
         if len(decs) != len(f.decorator_list) or decs not in (['classmethod'], ['staticmethod']):
             raise Unknown('%s.%s.%s: unknown decorators' % (module, cls, meth))
         names = [a.arg for a in f.args.args]
-        if names != (['cls', 'line'] if decs == ['classmethod'] else ['line']) or f.args.defaults or f.args.vararg or f.args.kwarg:
+        want = (['cls'] if decs == ['classmethod'] else []) + [p[0] for p in params]
+        if names != want or f.args.defaults or f.args.vararg or f.args.kwarg:
             raise Unknown('%s.%s.%s: unknown signature' % (module, cls, meth))
-        tr = Tr(module, cls, kind)
-        tr.some = {}
+        tr = Tr(module, cls, meth, kind, params)
+        tr.some, tr.subject, tr.done = {}, {}, done
         term = tr.block(f.body)
-        out.append('(* %s.%s.%s%s *)' % (module, cls, meth, '' if kind == 'bool' else ': None for False, Some (%s) for True' % ', '.join(tr_state_names(f))))
-        out.append('Definition g_%s_%s (line : str) :=\n  %s.' % (cls, meth, term))
+        note = '' if kind != 'state' else ': None for False, Some (%s) for True' % ', '.join(tr_state_names(f))
+        out.append('(* %s.%s.%s%s *)' % (module, cls, meth, note))
+        sig = ' '.join('(%s : %s)' % (coq, 'str' if srt == 'peek' else srt) for (_, coq, srt) in params)
+        out.append('Definition g_%s_%s %s :=\n  %s.' % (cls, meth, sig, term))
         out.append('')
+        if kind == 'option' and meth == 'parse_marker':
+            done[(cls, meth)] = ('g_%s_%s' % (cls, meth), ['str'], 'option:tuple:Z,Z,str,str')
     return {'GenBlockStart.v': '\n'.join(out) + '\n'}
 
 
